@@ -12,8 +12,9 @@ func init() {
 	registerProperty(&Property{ID: "C11", Rules: []string{"LK-ATOMIC", "LK-RMW", "LK-COPY", "TB-DEEP"}, Decided: "atomicity.", NotDecided: "-"})
 	registerProperty(&Property{ID: "C08", Rules: []string{"LK-CTA", "TS-RANGE", "TS-CANCEL", "TS-REFUSE"}, Decided: "cta.", NotDecided: "-"})
 	registerProperty(&Property{ID: "C20", Rules: []string{"TS-CLEANUP"}, Decided: "x", NotDecided: "-"})
-	registerProperty(&Property{ID: "C17", Rules: []string{"SH-IDEMPOTENT"}, Decided: "x", NotDecided: "-"})
-	registerProperty(&Property{ID: "C06", Rules: []string{"SH-PASS-LOOP"}, Decided: "x", NotDecided: "-"})
+	registerProperty(&Property{ID: "C17", Rules: []string{"LK-SELF", "SH-IDEMPOTENT", "SH-WORKLIST", "SH-CONVERT-MARK", "TS-CONTENT-FIRST"}, Decided: "x", NotDecided: "-"})
+	registerProperty(&Property{ID: "C05", Rules: []string{"SH-WORKLIST", "SH-MARK-EXHAUSTIVE", "SH-SWEEP-GUARD", "LK-TOKEN"}, Decided: "x", NotDecided: "-"})
+	registerProperty(&Property{ID: "C06", Rules: []string{"SH-PASS-LOOP", "TS-SAVE", "SH-WORKLIST"}, Decided: "x", NotDecided: "-"})
 	registerProperty(&Property{ID: "C10", Rules: []string{"TS-SAVE", "FS-INIT", "FS-CLEANUP"}, Decided: "x", NotDecided: "-"})
 	registerProperty(&Property{ID: "C09", Rules: []string{"FS-INDEX", "FS-BLOB", "FS-TEMP", "TS-CONTENT-FIRST"}, Decided: "x", NotDecided: "-"})
 	registerProperty(&Property{ID: "C01", Rules: []string{"TS-VERIFY", "TS-HASHBYTES", "SH-DIGESTER"}, Decided: "x", NotDecided: "-"})
